@@ -105,29 +105,41 @@ theorem and_ones_int (b : Nat) (sg : Bool) (n : Int) (h : wrapInt b sg n = n) :
   rw [hk, Nat.and_comm, Nat.and_two_pow_sub_one_eq_mod, Nat.mod_eq_of_lt hx, emod_toNat_cast,
     wrapInt_emod, h]
 
-theorem fmax_min_int (dt : DT) (k n : Int) (h : k ≤ n) :
-    ufuncCell "fmax" dt (.num k 0) (.num n 0) = .num n 0 := by
-  simp only [ufuncCell, Val.fmax, dyMax, dyLt, dyAlign, Val.ofDy]
-  simp
-  split
-  · exact ⟨rfl, rfl⟩
-  · have : k = n := by omega
+/-- `fmax` / `fmin` store their result in the array of dtype `dt` (`narrow`): the start value
+    is neutral on the cells that FIT the integer dtype (`wrapInt b sg n = n`) -/
+theorem fmax_min_int (b : Nat) (sg : Bool) (k n : Int) (h : k ≤ n) (hw : wrapInt b sg n = n) :
+    ufuncCell "fmax" (.int b sg) (.num k 0) (.num n 0) = .num n 0 := by
+  have hm : dyMax (k, 0) (n, 0) = (n, 0) := by
+    simp only [dyMax, dyLt, dyAlign]
+    simp
+    intro h'
+    have : k = n := by omega
     simp [this]
+  show narrow (.int b sg) (Val.ofDy (dyMax (k, 0) (n, 0))) = _
+  rw [hm]
+  simp [narrow, Val.ofDy, DT.wrap, hw]
 
-theorem fmin_max_int (dt : DT) (k n : Int) (h : n ≤ k) :
-    ufuncCell "fmin" dt (.num k 0) (.num n 0) = .num n 0 := by
-  simp only [ufuncCell, Val.fmin, dyMin, dyLt, dyAlign, Val.ofDy]
-  simp
-  split
-  · exact ⟨rfl, rfl⟩
-  · have : k = n := by omega
+theorem fmin_max_int (b : Nat) (sg : Bool) (k n : Int) (h : n ≤ k) (hw : wrapInt b sg n = n) :
+    ufuncCell "fmin" (.int b sg) (.num k 0) (.num n 0) = .num n 0 := by
+  have hm : dyMin (k, 0) (n, 0) = (n, 0) := by
+    simp only [dyMin, dyLt, dyAlign]
+    simp
+    intro h'
+    have : k = n := by omega
     simp [this]
+  show narrow (.int b sg) (Val.ofDy (dyMin (k, 0) (n, 0))) = _
+  rw [hm]
+  simp [narrow, Val.ofDy, DT.wrap, hw]
 
-theorem fmax_inf (dt : DT) (x : Val) : ufuncCell "fmax" dt (.inf true) x = x := by
-  simp [ufuncCell, Val.fmax]
+/-- on a floating-point array nothing is narrowed -/
+theorem narrow_flt (bits : Nat) (v : Val) : narrow (.flt bits) v = v := by
+  cases v <;> rfl
 
-theorem fmin_inf (dt : DT) (x : Val) : ufuncCell "fmin" dt (.inf false) x = x := by
-  simp [ufuncCell, Val.fmin]
+theorem fmax_inf (bits : Nat) (x : Val) : ufuncCell "fmax" (.flt bits) (.inf true) x = x := by
+  simp [ufuncCell, Val.fmax, narrow_flt]
+
+theorem fmin_inf (bits : Nat) (x : Val) : ufuncCell "fmin" (.flt bits) (.inf false) x = x := by
+  simp [ufuncCell, Val.fmin, narrow_flt]
 
 
 theorem parseDTCode_bits_pos {s : String} {b : Nat} {sg : Bool}
